@@ -369,7 +369,14 @@ def random_design(rnd, tmax=8):
     rcc = rnd.random() < 0.7
     if shape == 'cross':
         cr = rnd.sample(crossable, rnd.randint(1, min(2, len(crossable))))
-        return D(factors, cross(design, cr, rand_constraints(design, rnd.randint(0, 2)), rcc))
+        cons = rand_constraints(design, rnd.randint(0, 2))
+        plain = [f for f in factors if 'window' not in f and not any(isinstance(l, list) for l in f['levels'])]
+        if plain and rnd.random() < 0.12:
+            cons.append(['Sequential', rnd.choice(plain)['name']])
+        same = [(a['name'], b['name']) for a in plain for b in plain if a['name'] < b['name'] and len(a['levels']) == len(b['levels'])]
+        if same and rnd.random() < 0.12:
+            cons.append(['LatinSquare', list(rnd.choice(same))])
+        return D(factors, cross(design, cr, cons, rcc))
     if shape == 'repeat':
         cr = rnd.sample(crossable, rnd.randint(1, min(2, len(crossable))))
         inner = cross(design, cr, [c for c in rand_constraints(design, rnd.randint(0, 1)) if c[0] != 'MinimumTrials'])
